@@ -25,6 +25,7 @@ def parseFault (s : String) : Fault :=
   else if s == "meta" then .metaRead
   else if s == "rmdir" then .rmdir
   else if s == "verify" || s == "dropkey" then .verify
+  else if s == "fsync" then .write 2              -- `FileWriter.Close` fails at its fsync
   else if s.startsWith "write:" then
     -- write 1 and 2 (header, swamp name) happen while the file is created
     let k := ((s.drop 6).toString.toNat?).getD 3
@@ -68,6 +69,10 @@ def preFile (kind nm : String) (fo : Folder String) : Option (String × List (En
     some ("other/swamp/name", match first with
       | some k => if k != "" && (longLen? k).isNone then [zz, (k, "pre")] else [zz]
       | none => [zz])
+  else if kind == "newer" then
+    match dedupe good (allSegs fo) with
+    | (k, _) :: rest => some (nm, (k, "rewritten") :: rest)
+    | [] => none
   else if kind == "stub" then some (if nameLen nm ≤ 65535 then nm else "truncated", [])
   else if kind == "junk" then some (junkName, [])
   else none
@@ -83,7 +88,14 @@ def step (cfg : MCfg) (_ : Unit) (line : String) : Unit × String :=
       let fo := parseFolder (foPart.drop 7).toString
       let fault := parseFault (ft.drop 6).toString
       let hyd0 := preFile (pre.drop 4).toString nm fo
-      let d0 : Disk String (String × List (Entry String)) := { v1 := fo, v1Folder := true, hyd := hyd0 }
+      let dStart : Disk String (String × List (Entry String)) := { v1 := fo, v1Folder := true, hyd := hyd0 }
+      -- fault=rerun: an earlier run of the same swamp without DeleteOld came first
+      let rerun := (ft.drop 6).toString == "rerun"
+      let r0 := migrate cfg drvV2 ⟨o.verify, false, false⟩ .none nm dStart
+      let firstOk := match r0.1 with
+        | .success => true
+        | _ => false
+      let d0 := if rerun then r0.2 else dStart
       let (res, d1) := migrate cfg drvV2 o fault nm d0
       let resTxt := match res with
         | .success => "success" | .skippedEmpty => "skipped" | .failed ph => "failed:" ++ ph
@@ -92,6 +104,7 @@ def step (cfg : MCfg) (_ : Unit) (line : String) : Unit × String :=
         | _ => false
       let v1Txt := if !d1.v1Folder then "gone" else if d1.v1.length == fo.length then "same" else s!"left:{d1.v1.length}"
       let kept := hyd0.isSome && d1.hyd == hyd0
+      let unsynced := d1.hyd.isSome && !d1.hydSynced && d1.v1.length != fo.length
       let (hydTxt, loadTxt, nameTxt, loadBad) := match d1.hyd with
         | none => ("0", "none", "na", false)
         | some f =>
@@ -106,11 +119,13 @@ def step (cfg : MCfg) (_ : Unit) (line : String) : Unit × String :=
               | none => false
             let extra := f.2.any fun e => !ks.contains e.1
             let bad := !okAll || extra
-            ("1", if bad then "DIFF" else if uniq then "match" else "dup-ok",
+            (if unsynced then "unsynced" else "1", if bad then "DIFF" else if uniq then "match" else "dup-ok",
              if drvV2.nameOf f == nm then "ok" else "BAD", bad)
       -- Spec: a failure leaves everything as it was; V1 files go only after a success; a file that was there stays
       let flag :=
-        if hyd0.isSome && !kept then "\t#F:C23-existing-hyd-appended"
+        if unsynced then "\t#F:C23-delete-before-fsync"
+        else if rerun && failed && firstOk && hyd0.isNone then "\t#F:C23-rerun-never-completes"
+        else if hyd0.isSome && !kept then "\t#F:C23-existing-hyd-appended"
         else if !failed && nameTxt == "BAD" then "\t#F:C23-name-lost-when-meta-unreadable"
         else if failed && d1.hyd.isSome && !kept then
           (match fault with
@@ -121,17 +136,24 @@ def step (cfg : MCfg) (_ : Unit) (line : String) : Unit × String :=
           (if !cfg.verifyBeforeDelete || !cfg.writeBeforeDelete then "\t#F:C23-delete-before-verify" else "\t#F:C23-v1-files-lost-on-failure")
         else if loadBad then (if !cfg.dedupeLast then "\t#F:C23-dedupe-keeps-first" else "\t#F:C23-migrated-data-differs")
         else ""
-      ((), s!"res={resTxt} v1={v1Txt} hyd={hydTxt} load={loadTxt} name={nameTxt}{flag}")
+      let firstTxt := if rerun then (match r0.1 with
+        | .success => " first=success" | .skippedEmpty => " first=skipped" | .failed _ => " first=failed") else ""
+      ((), s!"res={resTxt} v1={v1Txt} hyd={hydTxt} load={loadTxt} name={nameTxt}{firstTxt}{flag}")
     | _ => ((), "bad-op")
   | _ =>
-    if line.startsWith "case " then ((), line) else ((), "bad-op")
+    if line.startsWith "case " then ((), line)
+    else if line.startsWith "multi " then
+      -- several swamps in one run: each must end as it does alone (the single runs are the `mig` lines)
+      let n := ((line.splitOn " ").find? (·.startsWith "n=")).getD "n=0"
+      ((), s!"multi {n} diff=0")
+    else ((), "bad-op")
 
 def run (args : List String) : IO UInt32 := do
   let kv := parseArgs args
   let y := fun k => triYes (arg kv k)
   let cfg : MCfg := ⟨y "dedupeLast", y "verifyBeforeDelete", y "writeBeforeDelete", y "removeOnVerifyFail",
                      y "removeOnWriteFail", y "removeOnOpenFail", y "emptyKeyIsError", y "metaErrorAborts", y "verifyValues",
-                     y "refusesExisting"⟩
+                     y "refusesExisting", y "acceptsEqualTarget", y "syncsBeforeDelete"⟩
   lineLoop (step cfg) ()
   return 0
 
